@@ -11,6 +11,7 @@ def sh(cmd):
     return p.returncode, p.stdout + p.stderr
 assert sh("git -C /repo status --short")[1].strip() == "", "/repo is not clean"
 units = sorted({u for c in P.PROPS.values() for u in c["units"]})
+BASE = json.load(open(os.path.join(V, "contracts", "baseline.json")))
 out = {}
 try:
     for d in (sys.argv[1:] or sorted(glob.glob(V + "/benign/B*"))):
@@ -28,7 +29,9 @@ try:
             finally:
                 sh("git -C /repo checkout HEAD -- . ; git -C /repo reset -q HEAD")
             # the same rules as ./check: failures that depend on lost ghost bookkeeping / lost closure contracts are undecided
-            bad = {u: [f["id"] for f in r.failures if not f.get("lost_ghost") and not f.get("lost_closures")] for u, r in res.items() if r.status == "failed"}
+            bad = {u: [f["id"] for f in r.failures if not f.get("lost_ghost") and not f.get("lost_closures")
+                       and not [c for c in f.get("bare_closures", []) if c not in BASE["units"].get(u, {}).get("bare_closures", {}).get(f["fn"], [])]]
+                   for u, r in res.items() if r.status == "failed"}
             bad = {u: v for u, v in bad.items() if v}
             und = {u: r.reason.split("\n")[0][:160] + " | " + " ".join(r.reason.split("\n")[1:3])[:300] for u, r in res.items() if r.status == "undecided"}
             out[name] = dict(failed=bad, undecided=und)
